@@ -20,6 +20,7 @@ fixing rules document, each granted only when that rule reported on the original
             (code_blocks defaults to true) compared with blank runs collapsed
  md004    : neighbouring bullet lists that differ only in marker character may join
  md047    : final newline (not visible in HTML)
+ md044    : letter case of every string (only reachable with `names` configured: the #cfg pass)
 Everything else must be identical: order and kind of blocks, list item count and nesting, quote
 nesting, every text character, every link/image destination and title, raw HTML, <br>."""
 import re
@@ -128,6 +129,17 @@ def fingerprint(src, fired=frozenset()):
             merged[-1] = ("T", WS.sub(" ", merged[-1][1] + " " + e[1]))
         else:
             merged.append(e)
+    if "md044" in fired:
+        # md044 (only with `names` configured) replaces a word by its configured capitalisation wherever it searches:
+        # text, code, comments, link titles -- letter case is its documented freedom
+        def fold(x):
+            if isinstance(x, str):
+                return x.casefold()
+            if isinstance(x, tuple):
+                return tuple(fold(y) for y in x)
+            return x
+
+        merged = [fold(e) for e in merged]
     return merged
 
 
